@@ -210,3 +210,58 @@ Example trailing_literal_unreadable :
   tokenize (b "2006-01-02-") = Some toks_trail
   /\ read_log ZNum toks_trail (print_output ZNum (cfg toks_trail) [day_plain]) = None.
 Proof. split; vm_compute; reflexivity. Qed.
+
+(** *** the documented note forms are exact on a finite domain: for every key
+    of at most 2 and value of at most 2 bytes over the alphabet
+    a, space, colon, #, dash, tab, CR, 0xC2, 0xA0 (the bytes of U+00A0), LF, quote,
+    the note survives the print / read round trip if and only if it is
+    [documented_note] (17 689 pairs; the same check with lengths 3 / 3 —
+    2.1 million pairs — also finds no disagreement, 6 minutes, not kept here) *)
+Definition alphabet : bytes := [97; 32; 58; 35; 45; 9; 13; 194; 160; 10; 34].
+Fixpoint strings_upto (n : nat) : list bytes :=
+  match n with
+  | O => [[]]
+  | S k => [] :: flat_map (fun s => map (fun c => c :: s) alphabet) (strings_upto k)
+  end.
+Fixpoint notes_eqb (l1 l2 : list (bytes * bytes)) : bool :=
+  match l1, l2 with
+  | [], [] => true
+  | x :: a, y :: c => beq (fst x) (fst y) && beq (snd x) (snd y) && notes_eqb a c
+  | _, _ => false
+  end.
+Definition day_with (mp : bytes * bytes) : lognode ZNum :=
+  {| ln_time := time_of_civil (2020, 1, 2)%Z; ln_elems := ([(b "x", 1%Z)] : elements ZNum);
+     ln_meta := Some [mp] |}.
+(** the printed day reads back as one record with exactly this note and its one entry *)
+Definition note_survives (mp : bytes * bytes) : bool :=
+  match events ZNum (print_output ZNum (cfg toks0) [day_with mp]) with
+  | [ENode n] =>
+      match meta n with Some l => notes_eqb l [mp] | None => false end
+      && match elems n with [_] => true | _ => false end
+  | _ => false
+  end.
+Definition note_disagreements (nk nv : nat) : list (bytes * bytes) :=
+  filter (fun mp => negb (Bool.eqb (note_survives mp) (documented_note mp)))
+         (flat_map (fun k => map (fun v => (k, v)) (strings_upto nv)) (strings_upto nk)).
+
+Example documented_note_exact_small : note_disagreements 2 2 = [].
+Proof. vm_compute. reflexivity. Qed.
+
+(** *** the number law at binary64, on samples only (zeros of both signs, ties,
+    huge and tiny values, NaN, both infinities, the largest finite value); in
+    general it rests on the correspondence check of the model's [parse_float]
+    / [format_fixed] against Go *)
+From Coq Require Import Floats.SpecFloat.
+Definition stable_at (v : T B64) : bool :=
+  qty_clean (fmt_fixed B64 2 v)
+  && match of_lexeme B64 (fmt_fixed B64 2 v) with
+     | Some v' => beq (fmt_fixed B64 2 v') (fmt_fixed B64 2 v)
+     | None => false
+     end.
+Definition lex64 (s : string) : T B64 := match of_lexeme B64 (b s) with Some v => v | None => S754_nan end.
+Example fmt_stable_b64_samples :
+  forallb stable_at
+    [lex64 "0"; lex64 "-0"; lex64 "1.005"; lex64 "-1.005"; lex64 "2.675"; lex64 "1e21"; lex64 "-1e300";
+     lex64 "1e-320"; lex64 "-1e-5"; lex64 "0.005"; lex64 "0.015"; lex64 "123456789.125";
+     S754_nan; S754_infinity false; S754_infinity true; lex64 "1.7976931348623157e308"] = true.
+Proof. vm_compute. reflexivity. Qed.
